@@ -9,8 +9,10 @@
    only then committedTxID advances and commitWHub.DoneUpto acknowledges), OpenWith (commit-log size
    trimmed to a multiple of 44, or last non-zero slot by binary search with PreallocFiles; ONLY the
    last entry's transaction read back and its Alh compared; precommitted transactions reloaded from
-   the tx log while id / PrevAlh chain and the record's own check hold — VALUES ARE NOT LOOKED AT;
-   hash tree: ResetSize when larger, "up to date" when EQUAL, re-appended from the tx log otherwise).
+   the tx log while id / PrevAlh chain and the record's own check hold AND its values are found in
+   the value log with the recorded digest (fix ccd70f3); hash tree: ResetSize to the COMMITTED id when
+   larger (fix 2077e08), "up to date" when EQUAL to the precommitted id, re-appended from the tx log
+   otherwise).
 
    Abstractions (named in the evidence): a tx record is  id(8) ‖ prevAlh(32) ‖ len(4) ‖ body ‖ alh(32)
    with alh = H(id ‖ prevAlh ‖ H body) and body = value reference (vlog, off, len, H values) ‖ opaque
@@ -22,7 +24,8 @@
    rotation (multiapp chunks), no external commit allowance, no embedded-values mode.
    Atomicity of each critical section (commit mutex, commitStateRWMutex, per-vLog lock, the tree's
    mutex) is a TRUSTED ASSUMPTION: every op below is one atomic step, any interleaving of ops is
-   allowed.  A Flush+Sync pair is one step because the state between them is reachable by OFlush. *)
+   allowed.  A Flush+Sync pair is one step because the state between them is reachable by OFlush.
+   The value logs are synced in ANY order (store.sync ranges over a Go map). *)
 From V Require Export Crash.Storage.
 
 Section Proto.
@@ -32,7 +35,10 @@ Record cfg := mkCfg {
   c_thld : N;        (* AHTOpts.SyncThld *)
   c_maxact : N;      (* MaxActiveTransactions *)
   c_prealloc : bool; (* PreallocFiles *)
-  c_psize : N        (* bytes preallocated (zero-filled) in the tx and commit logs *)
+  c_psize : N;       (* bytes preallocated (zero-filled) in the tx and commit logs *)
+  c_ahtsync : bool   (* NOT an option of the store: false = the code as it is; true = the code with the
+                        proposed repair fixes/C03-aht-stale-committed-leaf.diff (store.sync() fsyncs the
+                        hash tree after the tx log and before the commit entries are appended) *)
 }.
 
 Definition alh0 : bytes := H [].
@@ -89,7 +95,9 @@ Definition tx_ok (tx cm : bytes) (k : N) : Prop :=
     prev = alh_at cm (k - 1) /\ alh_at cm k = alh_of k prev body.
 Definition history_ok (tx cm : bytes) (n : N) : Prop := forall k, 1 <= k <= n -> tx_ok tx cm k.
 
-Inductive phase := PIdle | PV (i : nat) | PC (t : N).
+(* PV done: sync() is going through the value logs (Go ranges over a MAP: any order, each log once);
+   done = the logs already flushed and fsynced *)
+Inductive phase := PIdle | PV (done : list nat) | PC (t : N).
 
 Record st := mkSt {
   s_cfg : cfg;
@@ -105,6 +113,15 @@ Record st := mkSt {
 }.
 
 Definition precommitted (s : st) : N := committed s + N.of_nat (length (pbuf s)).
+
+(* the values of committed transaction k are in the FSYNCED content of the value log its record
+   refers to and hash to the digest stored in the record (empty values are never looked at) *)
+Definition values_durable_for (s : st) (k : N) : Prop :=
+  exists raw prev body n v vo vn hv,
+    tx_at (durable (txl s)) (durable (cml s)) k = Some raw /\
+    parse_rec raw = Some (k, prev, body, n) /\ body_vref body = Some (v, vo, vn, hv) /\
+    (vn = 0 \/ exists f, nth_error (vls s) (N.to_nat v) = Some f /\ vo + vn <= len (durable f) /\
+                         H (slice (durable f) vo vn) = hv).
 
 Definition zeros (n : N) : bytes := repeat 0 (N.to_nat n).
 Definition init (c : cfg) (nv : nat) : st :=
@@ -172,7 +189,7 @@ Inductive op :=
 | OPre (i : nat) (payload : bytes)  (* performPrecommit by the committer owning inflight extent i *)
 | OFlush (f : fid) (n : N)          (* n buffered bytes of a file reach the OS (Flush, or buffer full) *)
 | OSyncStart                        (* sync(): lock taken, something to do *)
-| OSyncV                            (* next value log: Flush + Sync *)
+| OSyncV (v : nat)                  (* one more value log: Flush + Sync *)
 | OSyncTx                           (* txLog Flush + Sync; cLog.SetOffset; commit entries appended *)
 | OSyncC.                           (* cLog Flush + Sync; committedTxID advances; acknowledgement *)
 
@@ -233,30 +250,32 @@ Definition step (s : st) (o : op) : res st :=
   | OSyncStart =>
       if phase_idle (phase_ s) && negb (precommitted s =? committed s) then
         Ok (mkSt c (txl s) (cml s) (vls s) (ahd s) (ahc s) (committed s) (calh s) (pbuf s) (palh s) (pts s)
-                 (acked s) (PV 0) (inflight s) (asize s) (alatest s) (acnt s))
+                 (acked s) (PV []) (inflight s) (asize s) (alatest s) (acnt s))
       else Err EOther
-  | OSyncV =>
+  | OSyncV v =>
       match phase_ s with
-      | PV i =>
-          match nth_error (vls s) i with
+      | PV done =>
+          if existsb (Nat.eqb v) done then Err EOther else
+          match nth_error (vls s) v with
           | Some g =>
-              Ok (mkSt c (txl s) (cml s) (set_nth (vls s) i (f_sync g)) (ahd s) (ahc s) (committed s) (calh s)
-                       (pbuf s) (palh s) (pts s) (acked s) (PV (S i)) (inflight s) (asize s) (alatest s) (acnt s))
+              Ok (mkSt c (txl s) (cml s) (set_nth (vls s) v (f_sync g)) (ahd s) (ahc s) (committed s) (calh s)
+                       (pbuf s) (palh s) (pts s) (acked s) (PV (v :: done)) (inflight s) (asize s) (alatest s) (acnt s))
           | None => Err EOther
           end
       | _ => Err EOther
       end
   | OSyncTx =>
       match phase_ s with
-      | PV i =>
-          if negb (Nat.eqb i (length (vls s))) then Err EOther else
+      | PV done =>
+          if negb (Nat.eqb (length done) (length (vls s))) then Err EOther else   (* every value log *)
           let t1 := f_sync (txl s) in
+          do a <- (if c_ahtsync c then aht_sync (aht_of s) else Ok (aht_of s));
           match f_setoffset (cml s) (44 * committed s) with
           | None => Err EOther
           | Some c1 =>
-              Ok (mkSt c t1 (f_append c1 (pbuf_entries (pbuf s))) (vls s) (ahd s) (ahc s) (committed s) (calh s)
+              Ok (mkSt c t1 (f_append c1 (pbuf_entries (pbuf s))) (vls s) (a_d a) (a_c a) (committed s) (calh s)
                        (pbuf s) (palh s) (pts s) (acked s) (PC (precommitted s)) (inflight s)
-                       (asize s) (alatest s) (acnt s))
+                       (a_size a) (a_latest a) (a_cnt a))
           end
       | _ => Err EOther
       end
@@ -302,8 +321,23 @@ Definition prealloc_csz (cm : bytes) : N :=
   let left := prealloc_search (length cm) cm 1 (len cm / 44) in
   if all_zero (slice cm ((left - 1) * 44) 44) then 0 else left * 44.
 
+(* precommittedValuesReadable (fix ccd70f3): the value extent a reloaded record refers to must be in
+   its value log and hash to the digest of the record.  Empty values are not looked at.  The value
+   reference is part of the record format (Go parses the entries in tx.readFrom): a body without one
+   does not pass. *)
+Definition vref_readable (vl : list bytes) (x : N * N * N * bytes) : bool :=
+  match x with (v, vo, vn, hv) =>
+    (vn =? 0) ||
+    match nth_error vl (N.to_nat v) with
+    | Some img => (vo + vn <=? len img) && list_eqb_N (H (slice img vo vn)) hv
+    | None => false
+    end
+  end.
+Definition values_readable_img (vl : list bytes) (body : bytes) : bool :=
+  match body_vref body with Some x => vref_readable vl x | None => false end.
+
 (* precommitted transactions reloaded from the tx log after the last committed one *)
-Fixpoint reload (fuel : nat) (tx : bytes) (pos pid : N) (pa : bytes)
+Fixpoint reload (fuel : nat) (tx : bytes) (vl : list bytes) (pos pid : N) (pa : bytes)
   : list (N * bytes * N * N) * N * bytes :=
   match fuel with
   | O => ([], pos, pa)
@@ -311,9 +345,10 @@ Fixpoint reload (fuel : nat) (tx : bytes) (pos pid : N) (pa : bytes)
       match parse_rec (drop pos tx) with
       | None => ([], pos, pa)
       | Some (id, prev, body, n) =>
-          if (id =? pid + 1) && list_eqb_N prev pa && (pos + n <? 2 ^ 64) (* int64 file offsets *) then
+          if (id =? pid + 1) && list_eqb_N prev pa && (pos + n <? 2 ^ 64) (* int64 file offsets *)
+             && values_readable_img vl body then
             let a := alh_of id prev body in
-            match reload f tx (pos + n) id a with
+            match reload f tx vl (pos + n) id a with
             | (l, pos', pa') => ((id, a, pos, n) :: l, pos', pa')
             end
           else ([], pos, pa)
@@ -353,7 +388,7 @@ Definition open_trim (img : bytes) (unit_ : N) : file :=
 
 (* the part of recovery that reads the tx log and the commit log:
    (committedTxID, committedAlh, reloaded cLogBuf, precommittedAlh, precommittedTxLogSize) *)
-Definition recover_logs (c : cfg) (tx cm : bytes)
+Definition recover_logs (c : cfg) (tx cm : bytes) (vl : list bytes)
   : res (N * bytes * list (N * bytes * N * N) * bytes * N) :=
   let csz := if c_prealloc c then prealloc_csz cm else len cm - len cm mod 44 in
   do cst <- (if 0 <? csz then
@@ -371,7 +406,7 @@ Definition recover_logs (c : cfg) (tx cm : bytes)
     else Ok (0, alh0, 0));
   match cst with
   | (cid, ca, ctls) =>
-      match reload (S (length tx)) tx ctls cid ca with
+      match reload (S (length tx)) tx vl ctls cid ca with
       | (pb, ptls, pa) => Ok (cid, ca, pb, pa, ptls)
       end
   end.
@@ -381,7 +416,7 @@ Definition recover_upto (upto : nat) (c : cfg) (im : images) : res st :=
   let tx := i_txl im in
   let cm := i_cml im in
   let cmf := if c_prealloc c then f_open cm else open_trim cm 44 in
-  do lg <- recover_logs c tx cm;
+  do lg <- recover_logs c tx cm (i_vls im);
   match lg with
   | (cid, ca, pb, pa, ptls) =>
       let p := cid + N.of_nat (length pb) in
@@ -390,7 +425,9 @@ Definition recover_upto (upto : nat) (c : cfg) (im : images) : res st :=
       let asz := len ac / 12 in
       if (0 <? asz) && (len (i_ahd im) <? 32 * asz) then Err ECorruptedData else
       let a0 := mkAht (f_open (i_ahd im)) (open_trim ac 12) asz asz 0 in
-      do a1 <- (if p <? asz then aht_reset a0 p else Ok a0);
+      (* fix 2077e08: leaves beyond the COMMITTED transactions are not trusted; they are re-appended
+         from the reloaded precommitted transactions *)
+      do a1 <- (if cid <? asz then aht_reset a0 cid else Ok a0);
       do a2 <- relink (Nat.min upto (N.to_nat (p - a_size a1))) (c_thld c) tx cm cid pb a1;
       Ok (mkSt c (f_open tx) cmf (map f_open (i_vls im)) (a_d a2) (a_c a2)
                cid ca pb pa ptls cid PIdle [] (a_size a2) (a_latest a2) (a_cnt a2))
@@ -402,10 +439,14 @@ Definition recover (c : cfg) (im : images) : res st := recover_upto (N.to_nat (l
 (* first incarnation: a fresh store driven by any sequence of operations *)
 Definition reach0 (c : cfg) (nv : nat) (s : st) : Prop := exists ops, run (init c nv) ops = Ok s.
 
-(* closed under crash + recovery (any number of crashes, also during recovery) *)
+(* closed under crash + recovery (any number of crashes, also during recovery).  Operations are
+   performed only by a store whose Open has RETURNED, i.e. whose hash tree has been re-linked up to the
+   precommitted id (`ready`); a recovery interrupted earlier (recover_upto with a small `upto`) is a
+   state that can only crash again. *)
+Definition ready (s : st) : Prop := asize s = precommitted s.
 Inductive reach (c : cfg) (nv : nat) : st -> Prop :=
 | r_init : reach c nv (init c nv)
-| r_step : forall s o s', reach c nv s -> step s o = Ok s' -> reach c nv s'
+| r_step : forall s o s', reach c nv s -> ready s -> step s o = Ok s' -> reach c nv s'
 | r_crash : forall s im upto s', reach c nv s -> crash s im -> recover_upto upto c im = Ok s' -> reach c nv s'.
 
 End Proto.
